@@ -143,6 +143,21 @@ def run_traces(ctx, pid, mode, nseg, length, chunks, scen):
     return all_rows
 
 
+def run_replay(ctx, pid):
+    """./check <pid> --replay file: re-execute the recorded history (configuration + requests) and judge it."""
+    with open(ctx.replay) as f:
+        d = json.load(f)
+    sc = d.get("scenario") or d
+    if not sc.get("ops"):
+        raise C.ToolError("replay file carries no history")
+    sc = {k: v for k, v in sc.items() if k in ("cfg", "mode", "tree", "ops", "src") and v is not None}
+    mode = sc.get("mode", pid.lower())
+    all_rows = run_traces(ctx, pid, mode, 0, 0, 1, [sc])
+    ctx.extra["rule"] = "replay of %s" % os.path.basename(ctx.replay)
+    ctx.extra["distinct_nontrivial"] = len(sc["ops"])
+    return all_rows
+
+
 def _brief(side):
     if not isinstance(side, dict):
         return side
@@ -175,30 +190,38 @@ def coverage(ctx, pid, all_rows):
     return points
 
 
-def binding(ctx, pid, all_rows, mutate, want):
+def binding(ctx, pid, all_rows, muts):
+    """muts: [(mutate(rows) -> description | None, regex the corrupted trace must be rejected with)].
+    All corruptions (each in a different event) go into one copy of the first random segments: one TLC run."""
     trace, rows = all_rows[0]
-    # first segments only (the demo is about binding, not coverage)
     rand = [r["seg"] for r in rows if r.get("e") == "Reset" and r.get("src") == "rand"][:8]
-    cut = [json.loads(json.dumps(r)) for r in rows if r.get("seg") in rand]
-    what = mutate(cut)
-    if not what:
-        raise C.ToolError("binding demo: nothing to corrupt in the first segments")
+    cut = [json.loads(json.dumps(r)) for r in rows if r.get("seg") in rand or r.get("e") in ("ResetGate", "Gate")]
+    muts = muts + [(_mut_cal, r"CAL\|lookup")]
+    whats = []
+    for mutate, want in muts:
+        what = mutate(cut)
+        if not what:
+            raise C.ToolError("binding demo: nothing to corrupt in the first segments (%s)" % want)
+        whats.append((what, want))
     bf = ctx.path("corrupt.ndjson")
     C.write_ndjson(bf, cut)
     res = C.tlc_trace(ctx, "Trace_Passthrough", bf, timeout=600)
-    sigs = sorted({v[0] for v in viols_of(res) if re.match(want, v[0])})
-    if not sigs:
-        raise C.ToolError("binding demo failed: corrupted trace accepted (%s)" % what)
-    ctx.extra.setdefault("binding_demo", []).append({"corruption": what, "rejected_with": sigs[:4]})
+    got = {v[0] for v in viols_of(res)}
+    for what, want in whats:
+        sigs = sorted(g for g in got if re.match(want, g))
+        if not sigs:
+            raise C.ToolError("binding demo failed: corrupted trace accepted (%s)" % what)
+        ctx.extra.setdefault("binding_demo", []).append({"corruption": what, "rejected_with": sigs[:4]})
 
 
-def binding_cal(ctx, pid, all_rows):
-    def mut(rows):
-        for r in rows:
-            if r.get("e") == "Step" and r["host"]["st"] == "OK" and r["op"]["op"] == "lookup":
+def _mut_cal(rows):
+    # in the last segment, so that the other corruptions are judged with the model still in step
+    last = [r["seg"] for r in rows if r.get("e") == "Reset"][-1]
+    for r in rows:
+        if r.get("e") == "Step" and r["seg"] == last and r["host"]["st"] == "OK" and r["op"]["op"] == "lookup":
+            if True:
                 r["host"]["st"] = "ENOENT"
                 return "the shadow's answer to one successful lookup replaced by ENOENT (calibration must reject)"
-    binding(ctx, pid, all_rows, mut, r"CAL\|")
 
 
 def samples(ctx, all_rows, pred, n=2):
@@ -221,6 +244,9 @@ ASSUME_COMMON = [
 
 
 def run_c05(ctx):
+    if getattr(ctx, "replay", None):
+        run_replay(ctx, "C05")
+        return
     scen = run_mc(ctx, "C05")
     nseg, length, chunks = (64, 40, 1) if ctx.quick else (256, 40, 3)
     all_rows = run_traces(ctx, "C05", "c05", nseg, length, chunks, [s for s in scen if s.get("mode", "c05") == "c05"])
@@ -233,21 +259,22 @@ def run_c05(ctx):
             if r.get("e") == "Step" and r["pt"]["st"] == "OK" and r["host"]["st"] == "OK" and r["op"]["op"] in ("mkdir", "create", "mknod") and r["pt"]["ch"]:
                 r["pt"]["attr"]["perm"] ^= 0o022
                 return "permission bits of one created object flipped in the passthrough reply"
-    binding(ctx, "C05", all_rows, mut, r"C05\|.*\|reply\|")
 
     def mut2(rows):
         for r in rows:
             if r.get("e") == "Step" and r["pt"]["st"] == "OK" and r["op"]["op"] == "write":
                 r["creds"]["euid"] = 1000
                 return "effective uid after one request logged as 1000"
-    binding(ctx, "C05", all_rows, mut2, r"C05\|.*\|creds")
-    binding_cal(ctx, "C05", all_rows)
+    binding(ctx, "C05", all_rows, [(mut, r"C05\|.*\|reply\|"), (mut2, r"C05\|.*\|creds")])
     samples(ctx, all_rows, lambda r: r["op"]["op"] in ("create", "rename") and r["pt"]["st"] == "OK")
     ctx.extra["rule"] = "distinct = (operation, status, flag/mode/valid class, name kind) observed on the passthrough side; histories of %d requests x %d configuration points" % (length, len(points))
     ctx.assumptions += ASSUME_COMMON
 
 
 def run_c06(ctx):
+    if getattr(ctx, "replay", None):
+        run_replay(ctx, "C06")
+        return
     scen = run_mc(ctx, "C06")
     nseg, length, chunks = (48, 40, 1) if ctx.quick else (192, 40, 3)
     all_rows = run_traces(ctx, "C06", "c06", nseg, length, chunks, [s for s in scen if s.get("mode") == "c06"])
@@ -274,39 +301,28 @@ def run_c06(ctx):
             if r.get("e") == "Step" and r["op"].get("nk") in ("slash", "dotdot") and r["op"]["op"] != "lookup" and r["pt"]["st"] == "EINVAL":
                 r["pt"]["st"] = "ENOENT"
                 return "one gated request answered ENOENT instead of EINVAL"
-    binding(ctx, "C06", all_rows, mut, r"C06\|.*\|namegate")
 
     def mut2(rows):
         for r in rows:
             if r.get("e") == "Step" and r["pt"]["st"] == "OK" and r["op"]["op"] == "lookup" and "attr" in r["pt"]:
                 r["pt"]["attr"]["id"] = next(x for x in rows if x.get("e") == "Reset")["pt_out"][0]["id"]
                 return "one lookup reply carries the file id of an object outside the export"
-    binding(ctx, "C06", all_rows, mut2, r"C06\|.*\|not-contained")
 
     def mut3(rows):
         for r in rows:
             if r.get("e") == "Gate" and r["nk"] == "slash" and r["op"] == "mkdir":
                 r["calls"] = ["mkdir"]
                 return "a backend call logged for a gated mkdir behind the Vfs"
-    all_gate = [(t, rows) for t, rows in all_rows]
-    trace, rows = all_rows[0]
-    gate_rows = [json.loads(json.dumps(r)) for r in rows if r.get("e") in ("ResetGate", "Gate")]
-    if gate_rows:
-        what = mut3(gate_rows)
-        bf = ctx.path("corrupt_gate.ndjson")
-        C.write_ndjson(bf, gate_rows)
-        res = C.tlc_trace(ctx, "Trace_Passthrough", bf, timeout=300)
-        sigs = sorted({v[0] for v in viols_of(res) if "backend-touched" in v[0]})
-        if not sigs:
-            raise C.ToolError("binding demo failed: backend call on a gated name accepted")
-        ctx.extra["binding_demo"].append({"corruption": what, "rejected_with": sigs})
-    binding_cal(ctx, "C06", all_rows)
+    binding(ctx, "C06", all_rows, [(mut, r"C06\|.*\|namegate"), (mut2, r"C06\|.*\|not-contained"), (mut3, r"C06\|.*backend-touched")])
     samples(ctx, all_rows, lambda r: r["op"].get("nk") in ("slash", "dotdot") or r["op"].get("name") in ("lout_abs", "lout_dir"))
     ctx.extra["rule"] = "distinct = (operation, status, flags class, name kind); sentinel tree with absolute/relative/dangling symlinks pointing outside, hard links, special files; Vfs in front in every third history; scripted backend for 'no backend touched'"
     ctx.assumptions += ASSUME_COMMON + ["behind a Vfs st_ino is the Vfs inode number: Contained is judged there through mirror equality and OutsideFrozen only"]
 
 
 def run_c18(ctx):
+    if getattr(ctx, "replay", None):
+        run_replay(ctx, "C18")
+        return
     scen = run_mc(ctx, "C18")
     nseg, length, chunks = (48, 40, 1) if ctx.quick else (256, 40, 2)
     all_rows = run_traces(ctx, "C18", "c18", nseg, length, chunks, [s for s in scen if s.get("mode") == "c18"])
@@ -329,8 +345,7 @@ def run_c18(ctx):
                     if w["t"] == "reg" and w["id"] in pre[r["seg"]]:
                         w["size"] += 1
                         return "size of a pre-existing file in one logged digest row changed by a size-neutral request"
-    binding(ctx, "C18", all_rows, mut, r"C18\|.*size-changed|C18\|.*neutral-differs")
-    binding_cal(ctx, "C18", all_rows)
+    binding(ctx, "C18", all_rows, [(mut, r"C18\|.*size-changed|C18\|.*neutral-differs")])
     samples(ctx, all_rows, lambda r: r["op"]["op"] in ("write", "fallocate") and not r["neutral"])
     ctx.extra["rule"] = "distinct = (operation, status, flags class, name kind); seal classes = (op, flags/mode/valid, plainly-neutral?, succeeded?) = %d; x {no_open}" % len(classes)
     ctx.assumptions += ASSUME_COMMON + [
